@@ -30,6 +30,9 @@ type c17Case struct {
 	// requests concurrently with its own envelopes; a ping reply that is not the answer to a ping of the client
 	// that received it, or a ping left without its reply, shows up in the client's view as a foreign item
 	Pings int `json:"pings,omitempty"`
+	// Gate: the server's consumer goroutine is held before its first select until every client has dialled, so that
+	// it then takes the accepted transports from its backlog back to back (build-tag gate consume:before-select)
+	Gate bool `json:"gate,omitempty"`
 	// observed
 	Server int        `json:"server"`
 	Sids   []int      `json:"sids"`
@@ -133,6 +136,9 @@ func (c *c17Case) run() error {
 	cfg.SchemeOpts = []lime.AuthenticationScheme{lime.AuthenticationSchemeGuest}
 	cfg.EncryptOpts = []lime.SessionEncryption{lime.SessionEncryptionNone}
 	cfg.ChannelBufferSize = 4
+	if c.Gate {
+		cfg.Backlog = 32 // room for every accepted transport to wait for the consumer
+	}
 	cfg.Authenticate = allowAll
 	cfg.Register = func(ctx context.Context, cand lime.Node, ch *lime.ServerChannel) (lime.Node, error) {
 		if nd, ok := reg[cand.Name]; ok {
@@ -197,6 +203,13 @@ func (c *c17Case) run() error {
 			lime.NewBoundListener(lime.NewInProcessTransportListener(ipAddr), ipAddr),
 			lime.NewBoundListener(lime.NewTCPTransportListener(nil), tcpAddr),
 			lime.NewBoundListener(lime.NewWebsocketTransportListener(nil), &net.TCPAddr{IP: wsAddr.IP, Port: wsAddr.Port}))
+	}
+	var gate *gateCtl
+	if c.Gate {
+		gate = newGateCtl()
+		lime.VerifSetGate(gate.point)
+		defer lime.VerifSetGate(nil)
+		gate.hold("consume:before-select")
 	}
 	served := make(chan error, 1)
 	go func() { served <- srv.ListenAndServe() }()
@@ -308,6 +321,11 @@ func (c *c17Case) run() error {
 		for i := 0; i < n; i++ {
 			cwg.Add(1)
 			go func(i int) { defer cwg.Done(); cerrs[i] = connect(i) }(i)
+		}
+		if gate != nil {
+			// everybody has dialled and sits in the listener's queue or the server's backlog: now the consumer runs
+			time.Sleep(40 * time.Millisecond)
+			gate.release("consume:before-select")
 		}
 		cwg.Wait()
 		for i, e := range cerrs {
@@ -582,7 +600,7 @@ func runC17(env *Env) error {
 	if ok, err := env.ReplayDesc(&rc); err != nil {
 		return err
 	} else if ok {
-		c := &c17Case{Kinds: rc.Kinds, Cands: rc.Cands, Ops: rc.Ops, Fin: rc.Fin, Together: rc.Together, Pings: rc.Pings}
+		c := &c17Case{Kinds: rc.Kinds, Cands: rc.Cands, Ops: rc.Ops, Fin: rc.Fin, Together: rc.Together, Pings: rc.Pings, Gate: rc.Gate}
 		// the replayed table carries interned node numbers; rebuild a table with the same shape
 		for _, r := range rc.RegTab {
 			c.RegTab = append(c.RegTab, [2]int{r[0], 100 + r[1]})
@@ -643,6 +661,13 @@ func runC17(env *Env) error {
 		}(i, c)
 	}
 	wg.Wait()
+	// the gate is process-wide: the cases that use it run one at a time, after the others
+	for r := 0; r < env.Pick(3, 10); r++ {
+		gc := genC17Rush(16, []string{"inproc", "tcp"}[r%2])
+		gc.Gate = true
+		cases = append(cases, gc)
+		errs = append(errs, gc.run())
+	}
 	for i, c := range cases {
 		if errs[i] != nil {
 			return errs[i]
